@@ -54,6 +54,9 @@ type c13Case struct {
 	// StartTLS: the server offers STARTTLS, the policy is TLSMandatory and the Client got a tls.Config of the caller's
 	// that names no server (InsecureSkipVerify): every dial-up of the Client works with that one value
 	StartTLS bool `json:"starttls_with_callers_tls_config,omitempty"`
+	// Refused: about a third of the messages have recipients the server refuses at RCPT (all of them, or one of two):
+	// such a message is not delivered and its call reports an error, everybody else's messages are delivered as always
+	Refused bool `json:"some_recipients_refused,omitempty"`
 }
 
 type c13Viol struct {
@@ -73,6 +76,7 @@ type c13Report struct {
 	MaxInFlight   int       `json:"max_in_flight"`
 	SumInFlight   int       `json:"sum_in_flight"`
 	SharedFailed  int       `json:"send_calls_failed_after_connection_loss,omitempty"`
+	RefusedMsgs   int       `json:"messages_with_refused_recipients,omitempty"`
 	CfgWritten    bool      `json:"callers_tls_config_written_to,omitempty"`
 	FirstDials    int       `json:"concurrent_first_dialups_of_fresh_clients,omitempty"`
 	CommitOrder   string    `json:"commit_order"`
@@ -92,6 +96,7 @@ type c13Msg struct {
 	from    string
 	rcpts   []string
 	shared  bool
+	doomed  bool // the server refuses (some of) its recipients
 }
 
 type c13Op struct {
@@ -120,6 +125,14 @@ func c13Run(c c13Case) c13Report {
 	}
 	farm := &refsmtp.Farm{NewConfig: func(int) *refsmtp.Config {
 		sc := &refsmtp.Config{AllowUTF8: true, Delay: func(string) time.Duration { return jitter() }, DataReadDelay: 15 * time.Microsecond}
+		if c.Refused {
+			sc.Decide = func(st refsmtp.Step) refsmtp.Action {
+				if st.Verb == "RCPT" && strings.Contains(st.Line, "@refused.example") {
+					return refsmtp.Action{Kind: refsmtp.Reply, Code: 550, Text: "5.1.1 no such user here"}
+				}
+				return refsmtp.Action{}
+			}
+		}
 		if c.Auth != "" {
 			a := &authSrv{User: "c13user", Pass: "c13-secret-pass", Iter: 64, Salt: []byte("c13salt")}
 			sc.Auth = a.handler()
@@ -208,6 +221,16 @@ func c13Run(c c13Case) c13Report {
 				spec.To[0].Addr = fmt.Sprintf("\"r %d,%d;a\"@rcpt.example", g, k)
 				rcptMbox[0] = fmt.Sprintf("r %d,%d;a@rcpt.example", g, k)
 			}
+			doomed := false
+			if c.Refused && rng.Intn(3) == 0 {
+				doomed = true
+				spec.To[1].Addr = fmt.Sprintf("nobody%d.%d.b@refused.example", g, k)
+				rcptMbox[1] = spec.To[1].Addr
+				if rng.Intn(3) != 0 {
+					spec.To[0].Addr = fmt.Sprintf("nobody%d.%d.a@refused.example", g, k)
+					rcptMbox[0] = spec.To[0].Addr
+				}
+			}
 			if c.SMIME && rng.Intn(2) == 0 {
 				// signed with SignWithTLSCertificate: every signed message of the process shares one *tls.Certificate
 				spec.SMIME, spec.SignVia, spec.WithInt = gen.Pick(rng, []string{"rsa", "ecdsa"}), "tlscert", rng.Intn(2) == 0
@@ -220,7 +243,7 @@ func c13Run(c c13Case) c13Report {
 				add("harness", "build: "+err.Error(), "")
 				return rep
 			}
-			cm := &c13Msg{signed: spec.SMIME != "", keyType: spec.SMIME, withInt: spec.WithInt, id: id, g: g, k: k, msg: m, from: fromMbox, rcpts: rcptMbox}
+			cm := &c13Msg{signed: spec.SMIME != "", keyType: spec.SMIME, withInt: spec.WithInt, id: id, g: g, k: k, msg: m, from: fromMbox, rcpts: rcptMbox, doomed: doomed}
 			ms = append(ms, cm)
 			all[id] = cm
 		}
@@ -392,6 +415,16 @@ func c13Run(c c13Case) c13Report {
 	}
 	rep.CommitOrder = strings.Join(orderParts, " ")
 	for id, m := range all {
+		if m.doomed {
+			if committed[id] != 0 {
+				add("refused-message-committed", fmt.Sprintf("message %s, whose recipients the server refused, was committed %d times", id, committed[id]), "")
+			}
+			if m.msg.IsDelivered() {
+				add("refused-message-reported-delivered", fmt.Sprintf("message %s, whose recipients the server refused, reports IsDelivered()", id), "")
+			}
+			rep.RefusedMsgs++
+			continue
+		}
 		if c.DeadConn && m.shared {
 			// the shared connection was lost on purpose: a message may be undelivered, never delivered twice
 			if committed[id] > 1 {
@@ -410,6 +443,16 @@ func c13Run(c c13Case) c13Report {
 		if c.DeadConn && op.shared {
 			if op.err != nil {
 				rep.SharedFailed++
+			}
+			continue
+		}
+		hasDoomed := false
+		for _, id := range op.ids {
+			hasDoomed = hasDoomed || all[id].doomed
+		}
+		if hasDoomed {
+			if op.err == nil {
+				add("send-returned-nil-for-refused-message", fmt.Sprintf("goroutine %d: send of %v returned nil although the server refused recipients of one of them", op.g, op.ids), "")
 			}
 			continue
 		}
@@ -440,6 +483,9 @@ func c13Run(c c13Case) c13Report {
 		var ps []int
 		okAll := true
 		for _, id := range op.ids {
+			if all[id].doomed {
+				continue
+			}
 			p, ok := where[id]
 			if !ok || p.conn != 0 {
 				okAll = false
@@ -450,7 +496,7 @@ func c13Run(c c13Case) c13Report {
 		if !okAll {
 			continue
 		}
-		pops = append(pops, porcupine.Operation{ClientId: op.g, Input: len(op.ids), Call: op.call, Output: ps, Return: op.ret})
+		pops = append(pops, porcupine.Operation{ClientId: op.g, Input: len(ps), Call: op.call, Output: ps, Return: op.ret})
 	}
 	rep.Ops = len(pops)
 	if len(pops) > 0 {
@@ -592,6 +638,9 @@ func c13Child(args []string) int {
 	if len(args) > 9 {
 		c.StartTLS = args[9] == "starttls"
 	}
+	if len(args) > 10 {
+		c.Refused = args[10] == "refused"
+	}
 	rep := c13Run(c)
 	b, _ := json.Marshal(rep)
 	fmt.Printf("C13REPORT %s\n", b)
@@ -600,7 +649,7 @@ func c13Child(args []string) int {
 
 func runC13(r *ev.Run, rep *ev.ReplayDoc) ev.Summary {
 	sum := ev.Summary{
-		Rule: "G in {2,4,8,16,32,64} goroutines, each sending a batch of 1-3 distinct messages (unique ids and envelopes - a third of them with local parts that need quoting -, 100 B - 300 KB, some with producers that yield or sleep between chunks, in every third repetition about half of them S/MIME signed through SignWithTLSCertificate with one shared certificate value) through ONE mail.Client: all via Send on one established connection, all via DialAndSend, and mixed (in a quarter of the repetitions with the debug log on and one log.Stdlog value shared by all connections; in half of the DialAndSend / mixed repetitions the Client has a fallback port and nothing answers on the primary one); the reference server adds seeded latency jitter to every reply and reads DATA slowly. Every repetition runs in its own child process built with -race. non-trivial = at least two Sends were in flight at a commit instant; distinct by commit order",
+		Rule: "G in {2,4,8,16,32,64} goroutines, each sending a batch of 1-3 distinct messages (unique ids and envelopes - a third of them with local parts that need quoting -, 100 B - 300 KB, some with producers that yield or sleep between chunks, in every third repetition about half of them S/MIME signed through SignWithTLSCertificate with one shared certificate value) through ONE mail.Client: all via Send on one established connection, all via DialAndSend, and mixed (in a quarter of the repetitions with the debug log on and one log.Stdlog value shared by all connections; in half of the DialAndSend / mixed repetitions the Client has a fallback port and nothing answers on the primary one; in some repetitions the server refuses recipients of about a third of the messages - all of them or one of two - so that those messages fail at RCPT while everybody else's are delivered); the reference server adds seeded latency jitter to every reply and reads DATA slowly. Every repetition runs in its own child process built with -race. non-trivial = at least two Sends were in flight at a commit instant; distinct by commit order",
 		Assumptions: []string{
 			"exactly-once, envelope/content pairing and transaction contiguity are judged from the reference server's per-connection logs; expected renderings are produced after all sends returned",
 			"porcupine (v1.3.0) checks that the shared connection's commit log is a linearization of the Send calls w.r.t. an append-only-log model; a checker timeout is inconclusive",
@@ -610,7 +659,7 @@ func runC13(r *ev.Run, rep *ev.ReplayDoc) ev.Summary {
 	}
 	exe, _ := os.Executable()
 	runChild := func(c c13Case) {
-		cmd := exec.Command(exe, "child", "c13", c.Mode, fmt.Sprint(c.G), fmt.Sprint(c.Rep), fmt.Sprint(c.Seed), c.Auth, map[bool]string{true: "smime", false: "plain"}[c.SMIME], map[bool]string{true: "fallback", false: "direct"}[c.Fallback], map[bool]string{true: "debuglog", false: "nolog"}[c.DebugLog], map[bool]string{true: "deadconn", false: "liveconn"}[c.DeadConn], map[bool]string{true: "starttls", false: "notls"}[c.StartTLS])
+		cmd := exec.Command(exe, "child", "c13", c.Mode, fmt.Sprint(c.G), fmt.Sprint(c.Rep), fmt.Sprint(c.Seed), c.Auth, map[bool]string{true: "smime", false: "plain"}[c.SMIME], map[bool]string{true: "fallback", false: "direct"}[c.Fallback], map[bool]string{true: "debuglog", false: "nolog"}[c.DebugLog], map[bool]string{true: "deadconn", false: "liveconn"}[c.DeadConn], map[bool]string{true: "starttls", false: "notls"}[c.StartTLS], map[bool]string{true: "refused", false: "allaccepted"}[c.Refused])
 		cmd.Env = os.Environ()
 		var outb, errb bytes.Buffer
 		cmd.Stdout, cmd.Stderr = &outb, &errb
@@ -681,6 +730,10 @@ func runC13(r *ev.Run, rep *ev.ReplayDoc) ev.Summary {
 				r.Count("runs_in_which_the_callers_tls_config_was_written_to", 1)
 			}
 		}
+		if c.Refused {
+			r.Count("runs_with_refused_recipients", 1)
+			r.Count("messages_with_refused_recipients", int64(cr.RefusedMsgs))
+		}
 		if c.DeadConn {
 			r.Count("runs_with_shared_connection_lost", 1)
 			r.Count("send_calls_failed_after_connection_loss", int64(cr.SharedFailed))
@@ -737,6 +790,12 @@ func runC13(r *ev.Run, rep *ev.ReplayDoc) ev.Summary {
 					tc := cs
 					tc.StartTLS, tc.DebugLog = true, false
 					cases = append(cases, tc)
+				}
+				if g >= 4 && g <= 16 && i%4 == 0 {
+					// the same repetition with recipients the server refuses in about a third of the messages
+					rc := cs
+					rc.Refused, rc.SMIME, rc.DebugLog = true, false, false
+					cases = append(cases, rc)
 				}
 				if mode == "mixed" && g >= 8 && (i == 0 || i%3 == 1) {
 					// the same repetition with the shared connection lost half way
